@@ -668,7 +668,7 @@ def c_onode(node):
 
 
 def c_call(call):
-    return "(" + clist([c_fq(float(x)) for x in call["q"].tolist()]) + ", " + c_fq(call["lam"]) + ")"
+    return "(" + c_qvec([float(x) for x in call["q"].tolist()]) + ", " + c_fq(call["lam"]) + ")"
 
 
 def c_phase(ph, with_calls):
